@@ -348,3 +348,201 @@ Proof.
           intros t' k' b' Hin'. apply (Hc1 t' k' b'). right; exact Hin'. }
         exists e. split; [right; exact Hin | split; assumption].
 Qed.
+
+(* ------------------------------------------------------------------------------------------ *)
+(* From events to acceptable offers. *)
+
+Lemma relay_run_bid s r e b :
+  In e (relay_run s r) -> e_del e = DBid b ->
+  e_relay e = r_idx r /\ exists k, In (e_time e, k, RBid b) (answered s r) /\ eligible r b = true.
+Proof.
+  destruct s as [T | D gap]; cbn [relay_run].
+  - intros Hin Hd. apply in_map_iff in Hin as [[[t k] x] [<- Hin]].
+    cbn [mk_event e_del e_time e_relay] in *. apply classify_best_bid in Hd as [-> He].
+    split; [reflexivity|]. exists k. split; assumption.
+  - apply run_sound.
+Qed.
+
+Lemma answered_deadline_before D gap r e j x : In (e, j, x) (answered (Deadline D gap) r) -> (e < D)%Z.
+Proof. apply deadline_calls_before. Qed.
+
+(* whatever is handed to the collector is an acceptable offer: both strategies, any order *)
+Lemma forwarded_acceptable s rs ord i b :
+  arrival_order s rs ord -> In (i, b) (forwarded (cutoff s) ord) ->
+  exists t, acceptable_at s rs i t b.
+Proof.
+  intros Hord Hin. apply forwarded_In in Hin as [e [He [Hd [Ht Hr]]]].
+  apply Hord, all_events_In in He as [r [Hr' [Hq He]]].
+  destruct (relay_run_bid s r e b He Hd) as [Hrel [k [Hk Hel]]].
+  exists (e_time e), r, k. repeat split; try assumption. congruence.
+Qed.
+
+(* best: and every acceptable offer is handed to the collector *)
+Lemma best_acceptable_forwarded T rs ord i b :
+  arrival_order (Best T) rs ord -> acceptable (Best T) rs i b -> In (i, b) (forwarded T ord).
+Proof.
+  intros Hord [t (r & k & Hr & Hi & Hq & Hin & Ht & He)].
+  apply forwarded_In. exists (mk_event r t k (classify_best r (RBid b))).
+  repeat split.
+  - apply Hord, all_events_In. exists r. repeat split; try assumption.
+    cbn [relay_run]. apply in_map_iff. exists (t, k, RBid b). split; [reflexivity | exact Hin].
+  - cbn [mk_event e_del]. apply classify_best_bid. split; [reflexivity | exact He].
+  - exact Ht.
+  - exact Hi.
+Qed.
+
+(* deadline: what is handed to the collector are the relays' value records *)
+Lemma deadline_forwarded_records D gap rs ord i b :
+  arrival_order (Deadline D gap) rs ord ->
+  (In (i, b) (forwarded D ord) <-> record_offer (Deadline D gap) rs i b).
+Proof.
+  intros Hord. rewrite forwarded_In. split.
+  - intros [e [He [Hd [Ht Hr]]]]. apply Hord, all_events_In in He as [r [Hr' [Hq He]]].
+    cbn [relay_run] in He.
+    destruct (run_sound r _ None e b He Hd) as [Hrel _].
+    destruct (proj1 (run_records r (answered (Deadline D gap) r) None (e_time e) b)) as (c1 & k & c2 & Hc & Hel & _ & Hc1).
+    { exists e. repeat split; assumption. }
+    exists r, (e_time e). repeat split; try assumption; [congruence|].
+    exists c1, k, c2. repeat split; assumption.
+  - intros (r & t & Hr & Hi & Hq & (c1 & k & c2 & Hc & Hel & Hc1)).
+    destruct (proj2 (run_records r (answered (Deadline D gap) r) None t b)) as [e [He [Hd Ht]]].
+    { exists c1, k, c2. repeat split; try assumption. intros l Hl. discriminate Hl. }
+    exists e. repeat split; try assumption.
+    + apply Hord, all_events_In. exists r. repeat split; assumption.
+    + subst t. apply (answered_deadline_before D gap r (e_time e) k (RBid b)).
+      rewrite Hc. apply in_or_app. right. left. reflexivity.
+    + destruct (run_sound r _ None e b He Hd) as [Hrel _]. congruence.
+Qed.
+
+(* deadline, without suppressed better bids: every acceptable offer with a non-zero score is
+   dominated by one handed to the collector *)
+Lemma deadline_acceptable_dominated cfgs D gap rs ord j b :
+  arrival_order (Deadline D gap) rs ord -> no_suppressed_better cfgs (Deadline D gap) rs ->
+  acceptable (Deadline D gap) rs j b -> score cfgs b <> 0%Z ->
+  exists j' l, In (j', l) (forwarded D ord) /\ score cfgs l <> 0%Z /\ (score cfgs b <= score cfgs l)%Z.
+Proof.
+  intros Hord Hns [t (r & k & Hr & Hi & Hq & Hin & Ht & He)] Hnz.
+  destruct (run_complete cfgs r _ None (Hns r Hr Hq) t k b Hin He Hnz) as [l [[[e [Hie Hde]] | Hl] [Hlz Hle]]];
+    [|discriminate Hl].
+  exists (r_idx r), l. split; [|split; assumption].
+  apply forwarded_In. exists e.
+  destruct (run_sound r _ None e l Hie Hde) as [Hrel [k' [Hk' _]]].
+  repeat split; try assumption.
+  - apply Hord, all_events_In. exists r. repeat split; assumption.
+  - apply (answered_deadline_before D gap r _ _ _ Hk').
+Qed.
+
+(* ------------------------------------------------------------------------------------------ *)
+(* The winner. *)
+
+Lemma winner_max_of_forwarded cfgs fw :
+  winner_is_max cfgs (fun i b => In (i, b) fw) (st_win (collect cfgs fw)).
+Proof.
+  destruct (collect_inv cfgs fw) as [Hn Hs]. unfold winner_is_max.
+  destruct (st_win (collect cfgs fw)) as [w|].
+  - destruct (Hs w eq_refl) as (H1 & H2 & H3 & H4 & (r0 & rest & l1 & l2 & Hp & Hfw & Hl1) & H6).
+    repeat split; try assumption.
+    + exists r0. rewrite Hfw. apply in_or_app. right. left. reflexivity.
+    + intros j b Hin Hnz. apply (H4 (j, b) Hin Hnz).
+  - destruct (Hn eq_refl) as [_ Hall]. intros i b Hin. apply (Hall (i, b) Hin).
+Qed.
+
+Lemma winner_is_max_dom cfgs (P Q : N -> bid -> Prop) win :
+  (forall i b, P i b -> Q i b) ->
+  (forall j b, Q j b -> score cfgs b <> 0%Z ->
+               exists j' l, P j' l /\ score cfgs l <> 0%Z /\ (score cfgs b <= score cfgs l)%Z) ->
+  winner_is_max cfgs P win -> winner_is_max cfgs Q win.
+Proof.
+  intros Hsub Hdom. destruct win as [w|]; cbn [winner_is_max].
+  - intros ([i Hi] & H1 & H2 & H3 & H4). repeat split; try assumption.
+    + exists i. apply Hsub. exact Hi.
+    + intros j b Hq Hnz. destruct (Hdom j b Hq Hnz) as (j' & l & Hp & Hlz & Hle).
+      specialize (H4 j' l Hp Hlz). lia.
+  - intros Hall i b Hq. destruct (Z.eq_dec (score cfgs b) 0) as [E | Hnz]; [exact E|].
+    destruct (Hdom i b Hq Hnz) as (j' & l & Hp & Hlz & _). specialize (Hall j' l Hp). contradiction.
+Qed.
+
+Lemma winner_is_max_ext cfgs (P Q : N -> bid -> Prop) win :
+  (forall i b, P i b <-> Q i b) -> winner_is_max cfgs P win -> winner_is_max cfgs Q win.
+Proof.
+  intros Heq. apply winner_is_max_dom.
+  - intros i b. apply Heq.
+  - intros j b Hq Hnz. exists j, b. split; [apply Heq; exact Hq | split; [exact Hnz | lia]].
+Qed.
+
+(* two results that are both maximal over the same family carry the same winning score *)
+Lemma winner_is_max_score_unique cfgs (P : N -> bid -> Prop) w1 w2 :
+  winner_is_max cfgs P w1 -> winner_is_max cfgs P w2 -> option_map p_score w1 = option_map p_score w2.
+Proof.
+  destruct w1 as [w1|], w2 as [w2|]; cbn [winner_is_max option_map]; try reflexivity.
+  - intros ([i1 Hi1] & A1 & _ & A3 & A4) ([i2 Hi2] & B1 & _ & B3 & B4).
+    f_equal. rewrite A1 in A3. rewrite B1 in B3.
+    specialize (A4 i2 _ Hi2 B3). specialize (B4 i1 _ Hi1 A3). lia.
+  - intros ([i1 Hi1] & A1 & _ & A3 & _) Hall. rewrite A1 in A3. specialize (Hall i1 _ Hi1). contradiction.
+  - intros Hall ([i2 Hi2] & B1 & _ & B3 & _). rewrite B1 in B3. specialize (Hall i2 _ Hi2). contradiction.
+Qed.
+
+Lemma best_winner_is_max cfgs T rs ord :
+  arrival_order (Best T) rs ord ->
+  winner_is_max cfgs (acceptable (Best T) rs) (st_win (result_of cfgs (Best T) ord)).
+Proof.
+  intros Hord. unfold result_of. cbn [cutoff].
+  apply (winner_is_max_ext cfgs (fun i b => In (i, b) (forwarded T ord))); [|apply winner_max_of_forwarded].
+  intros i b. split.
+  - intros Hin. apply (forwarded_acceptable (Best T) rs ord i b Hord Hin).
+  - apply best_acceptable_forwarded. exact Hord.
+Qed.
+
+Lemma deadline_winner_is_max_partial cfgs D gap rs ord :
+  arrival_order (Deadline D gap) rs ord -> no_suppressed_better cfgs (Deadline D gap) rs ->
+  winner_is_max cfgs (acceptable (Deadline D gap) rs) (st_win (result_of cfgs (Deadline D gap) ord)).
+Proof.
+  intros Hord Hns. unfold result_of. cbn [cutoff].
+  apply (winner_is_max_dom cfgs (fun i b => In (i, b) (forwarded D ord))); [| |apply winner_max_of_forwarded].
+  - intros i b Hin. apply (forwarded_acceptable (Deadline D gap) rs ord i b Hord Hin).
+  - intros j b Hq Hnz. apply (deadline_acceptable_dominated cfgs D gap rs ord j b Hord Hns Hq Hnz).
+Qed.
+
+Lemma deadline_winner_is_max_record cfgs D gap rs ord :
+  arrival_order (Deadline D gap) rs ord ->
+  winner_is_max cfgs (record_offer (Deadline D gap) rs) (st_win (result_of cfgs (Deadline D gap) ord)).
+Proof.
+  intros Hord. unfold result_of. cbn [cutoff].
+  apply (winner_is_max_ext cfgs (fun i b => In (i, b) (forwarded D ord))); [|apply winner_max_of_forwarded].
+  intros i b. apply deadline_forwarded_records. exact Hord.
+Qed.
+
+(* the winning score does not depend on the order in which the answers arrive *)
+Lemma forwarded_order_indep s rs c o1 o2 x :
+  arrival_order s rs o1 -> arrival_order s rs o2 -> (In x (forwarded c o1) <-> In x (forwarded c o2)).
+Proof.
+  intros H1 H2. destruct x as [i b]. rewrite !forwarded_In.
+  split; intros [e [He Hrest]]; exists e; (split; [|exact Hrest]).
+  - apply H2, H1, He.
+  - apply H1, H2, He.
+Qed.
+
+Lemma winning_score_order_independent cfgs s rs o1 o2 :
+  arrival_order s rs o1 -> arrival_order s rs o2 ->
+  option_map p_score (st_win (result_of cfgs s o1)) = option_map p_score (st_win (result_of cfgs s o2)).
+Proof.
+  intros H1 H2. unfold result_of.
+  apply (winner_is_max_score_unique cfgs (fun i b => In (i, b) (forwarded (cutoff s) o1))).
+  - apply winner_max_of_forwarded.
+  - apply (winner_is_max_ext cfgs (fun i b => In (i, b) (forwarded (cutoff s) o2))); [|apply winner_max_of_forwarded].
+    intros i b. symmetry. apply (forwarded_order_indep s rs); assumption.
+Qed.
+
+(* without per-builder configuration the score is the value, so nothing better is kept back *)
+Lemma no_suppressed_nil_cfgs r : forall calls last, no_suppressed [] r last calls = true.
+Proof.
+  induction calls as [|[[t k] x] rest IH]; intros last; [reflexivity|].
+  cbn [no_suppressed]. destruct x; try apply IH.
+  destruct (eligible r b) eqn:He; [|apply IH].
+  destruct last as [l|]; [|apply IH].
+  destruct (b_value l <? b_value b) eqn:El; [apply IH|].
+  rewrite IH, andb_true_r. apply N.ltb_ge in El.
+  apply eligible_iff in He as (Hv & _).
+  unfold score, conf_of. cbn [lookup blank_conf bc_offset bc_factor].
+  apply orb_true_iff. right. apply andb_true_iff. split; [apply negb_true_iff, Z.eqb_neq | apply Z.leb_le]; lia.
+Qed.
